@@ -22,7 +22,7 @@ func (s *sim) checkpoint(final bool) {
 	if s.stop || s.checkAllGets("checkpoint") {
 		return
 	}
-	if s.checkIteration(root) || s.checkProofs(root) {
+	if s.checkIteration(root) || s.checkProofs(root, final) {
 		return
 	}
 	if final || s.ops.Bool(1, 2) {
@@ -169,16 +169,23 @@ func (s *sim) proveKey(tk []byte) ([][]byte, error) {
 	return pl.blobs, err
 }
 
-func (s *sim) checkProofs(root common.Hash) bool {
+func (s *sim) checkProofs(root common.Hash, all bool) bool {
 	type claim struct {
 		k     []byte // user key
 		truth []byte // nil = absent
 	}
 	var claims []claim
-	for _, k := range s.m.keys() {
+	ks := s.m.keys()
+	if !all && len(ks) > 16 {
+		// intermediate checkpoints of big tries prove a sample; the final one proves every key
+		s.ops.Shuffle(len(ks), func(i, j int) { ks[i], ks[j] = ks[j], ks[i] })
+		ks = ks[:16]
+		sort.Strings(ks)
+	}
+	for _, k := range ks {
 		claims = append(claims, claim{[]byte(k), s.m[k]})
 	}
-	nAbsent := 3 + len(s.m)/4
+	nAbsent := 3 + len(ks)/4
 	for i := 0; i < nAbsent; i++ {
 		k := s.genKey()
 		if _, ok := s.m[string(k)]; !ok {
@@ -288,7 +295,7 @@ func (s *sim) tamper(root common.Hash, tk, truth []byte, blobs, prev, foreign []
 	}
 	rounds := 3
 	if s.c.Tier == kernel.Thorough {
-		rounds = 6
+		rounds = 4
 	}
 	for r := 0; r < rounds; r++ {
 		i := t.Int(len(blobs))
